@@ -105,6 +105,17 @@ fn unshard_counts(vdaf: &Pop, ap: &Poplar1AggregationParam, outs: &[Vec<Poplar1F
     let mut agg_shares = vec![];
     for a in 0..2 {
         let sh = vdaf.aggregate(ap, outs.iter().map(|o| o[a].clone())).map_err(|e| format!("aggregate: {e}"))?;
+        // the same batch aggregated as two sub-batches that are merged afterwards (what an aggregator
+        // processing a batch in pieces does) must give the same aggregate share
+        if outs.len() >= 2 {
+            let cut = outs.len() / 2;
+            let mut left = vdaf.aggregate(ap, outs[..cut].iter().map(|o| o[a].clone())).map_err(|e| format!("aggregate(sub-batch): {e}"))?;
+            let right = vdaf.aggregate(ap, outs[cut..].iter().map(|o| o[a].clone())).map_err(|e| format!("aggregate(sub-batch): {e}"))?;
+            prio::vdaf::Aggregatable::merge(&mut left, &right).map_err(|e| format!("merge of two sub-batch aggregate shares: {e}"))?;
+            if left != sh {
+                return Err(format!("aggregator {a}: merging the aggregate shares of two sub-batches ({} + {} reports) differs from aggregating the whole batch", cut, outs.len() - cut));
+            }
+        }
         let bytes = sh.get_encoded().map_err(|e| e.to_string())?;
         let sh2 = Poplar1FieldVec::get_decoded_with_param(&(vdaf, ap), &bytes).map_err(|e| format!("aggregate share codec: {e}"))?;
         agg_shares.push(sh2);
